@@ -67,6 +67,15 @@ EMPHASIS = {
           '(4) a change in clean-up / ordering of file operations (what exists on disk after a failure or after a '
           'second run, files left over, files written in another order); (5) a change in a code path taken only '
           'when an OPTIONAL file or argument is absent.'),
+    '6': ('Prefer, this time: (1) the REFUSALS and ERROR behaviours the statement promises (rejects / refuses / raises / '
+          'never prevents loading): make one of them silently succeed, or fail on a legal input next to the illegal one; '
+          '(2) the INTERACTION of two features named in the same statement (two options, two files, two arguments) that '
+          'each work alone; (3) an ALTERNATIVE ENTRY POINT or accessor that reaches the same behaviour (a property next '
+          'to a getter, a function next to a method, a cached attribute next to the computation) so that the two '
+          'disagree; (4) the ENVIRONMENT of a file operation: current working directory, relative paths, an output '
+          'directory that already contains files, an existing file of another size, read-only inputs, iteration order '
+          'of a directory listing or a dictionary; (5) IDEMPOTENCE: the same call made twice, the same object used '
+          'after close/reopen, a value set to what it already is.'),
 }
 
 
